@@ -147,7 +147,7 @@ func runC15(cfg *vh.Config) error {
 	res.Distribution["worker-restarts"] = pool.Restarts
 
 	cf := &vh.CasesFile{
-		Header: "From Coq Require Import String List NArith ZArith.\nFrom J5V.model Require Import ReflectDesc ReflectSchema ExportCorr.",
+		Header: "From Coq Require Import String List NArith ZArith.\nFrom J5V.model Require Import ReflectDesc ReflectSchema ExportForm ExportCorr.",
 		Type:   "c15case",
 		Check:  "c15_check",
 	}
